@@ -38,6 +38,17 @@ def svd_cases(draw, tier):
     return {"A": np.ascontiguousarray(A * 10.0 ** e), "kind": kind, "R": R, "scale_exp": e}
 
 
+@st.composite
+def long_svd_cases(draw, tier):
+    """One long dimension (crossing the blocking sizes) against <= 3; generic full-rank entries."""
+    Lg, sh = draw(gen.long_dim(cap=257 if tier == "quick" else 520)), draw(st.integers(1, 3))
+    A, pat = draw(gen.long_qarray(Lg, sh, draw(st.sampled_from(["generic", "int"]))))
+    if draw(st.booleans()):
+        A = np.ascontiguousarray(np.swapaxes(A, 0, 1))
+    e = draw(st.sampled_from([0, 0, -8, 8]))
+    return {"A": np.ascontiguousarray(A * 10.0 ** e), "kind": "pattern:" + pat, "R": draw(st.integers(1, sh)), "scale_exp": e}
+
+
 def classify(sref, m, n):
     """Input classes from the reference spectrum of the INPUT (never from the outcome)."""
     k = len(sref)
@@ -166,7 +177,9 @@ PROPERTY = Property(
     id="C05",
     title="Q-SVD: true singular values, unitary factors, exact and optimal reconstruction",
     rule="min(m,n) >= 2 and (a repeated non-zero singular value, or >= 2 zero singular values, or m != n)",
-    clauses=[Clause("qsvd", check_svd, strategy=svd_cases, budget={"quick": 1500, "thorough": 20000})],
+    clauses=[Clause("qsvd", check_svd, strategy=svd_cases, budget={"quick": 1500, "thorough": 20000}),
+             Clause("qsvd_long_dimension", check_svd, strategy=long_svd_cases, budget={"quick": 32, "thorough": 320},
+                    shrink=False)],
     assumptions=[
         "reference singular values from LAPACK on the harness's complex adjoint",
         "orthonormality tolerance scales with sigma_1/gap (singular vectors are only determined to u*||A||/gap); values "
